@@ -700,7 +700,8 @@ func c07PlanOf(thorough bool) c07Plan {
 				{"num,text2", c07Num, c07Text2, 5}, {"bigint,text2", c07BigInt, c07Text2, 4}},
 			cutPairs: []c07Pair{
 				{"cut 3x2", c07Num3, []rv.V{rv.S("a"), rv.S("b")}, 5},
-				{"cut 4x2", []rv.V{rv.N(), rv.I(1), rv.I(2), rv.Fl(1)}, []rv.V{rv.N(), rv.S("a")}, 4}},
+				{"cut 4x2", []rv.V{rv.N(), rv.I(1), rv.I(2), rv.Fl(1)}, []rv.V{rv.N(), rv.S("a")}, 4},
+				{"cut bigint", []rv.V{rv.N(), rv.I(1 << 53), rv.I(1<<53 + 1), rv.I(9223372036854775807), rv.I(9223372036854775806)}, []rv.V{rv.S("a")}, 4}},
 			cutFetchKL: 2,
 			filePairs:  []c07Pair{{"file numtext,text", c07NumText4, c07Text3, 4}, {"file text,numtext", c07Text, c07NumText3, 3}, {"file date,text", c07DateText, c07Text3, 3}},
 			nanRows:    5,
@@ -712,7 +713,8 @@ func c07PlanOf(thorough bool) c07Plan {
 			{"date,num", c07Date, c07Num3, 3}, {"text,date", c07Text, c07Date3, 3}, {"numtext,text", c07NumText, c07Text3, 3}, {"bigint,text2", c07BigInt, c07Text2, 3}},
 		cutPairs: []c07Pair{
 			{"cut 3x2", c07Num3, []rv.V{rv.S("a"), rv.S("b")}, 4},
-			{"cut 3x1", []rv.V{rv.N(), rv.I(1), rv.Fl(1)}, []rv.V{rv.S("a")}, 4}},
+			{"cut 3x1", []rv.V{rv.N(), rv.I(1), rv.Fl(1)}, []rv.V{rv.S("a")}, 4},
+			{"cut bigint", []rv.V{rv.I(1 << 53), rv.I(1<<53 + 1), rv.I(9223372036854775807), rv.I(9223372036854775806)}, []rv.V{rv.S("a")}, 3}},
 		cutFetchKL: 2,
 		filePairs:  []c07Pair{{"file numtext,text", c07NumText4, c07Text3, 3}},
 		nanRows:    4,
